@@ -8,7 +8,7 @@ From Coq Require Import String.
 From Cvg Require Import Base GoTypes Dump Options Front Builder Gen.
 From Cvg.proofs Require Import BuilderProofs MatchProofs TypedProofs.
 From Cvg Require Import GoLib GoFuns.
-From Cvg.proofs Require Import GenTieProofs HeaderProofs.
+From Cvg.proofs Require Import GenTieProofs HeaderProofs NodeTieProofs.
 Open Scope N_scope.
 
 (** Every expression castNode lets through for a target type t is assignable to
@@ -123,3 +123,16 @@ Theorem C01_variables_declared_once :
      ~ In (s2b "err") (v_name (fn_src f) :: v_name (fn_dst f) :: List.map v_name (fn_args f))).
 Proof. exact create_function_names_distinct. Qed.
 Print Assumptions C01_variables_declared_once.
+
+(** Tie to the source, expression level. [GoNode.Node_AssignExpr], [Node_ExprType] and
+    [Node_ReturnsError] are /repo's pkg/builder/model node.go and struct.go (the methods of the
+    seven node kinds), translated statement by statement into gen/GoFuns.v on every run;
+    [lower_node] nests the Go nodes the way the builder does.  The expression text, its type and its
+    error flag that the typing theorems above speak about are what the Go code computes. *)
+Theorem C01_expressions_are_what_the_go_code_prints :
+  forall mo n,
+    GoNode.Node_AssignExpr (lower_node mo n) = assign_expr n /\
+    GoNode.Node_ExprType (lower_node mo n) = expr_type n /\
+    GoNode.Node_ReturnsError (lower_node mo n) = returns_error n.
+Proof. intros mo n. split; [apply assign_expr_tie|split; [apply expr_type_tie|apply returns_error_tie]]. Qed.
+Print Assumptions C01_expressions_are_what_the_go_code_prints.
